@@ -75,10 +75,12 @@ type world struct {
 	reg     []bool   // device registered at the rendezvous server
 	slots   [4]*session
 	byToken map[string]*session
+	gone    [2]bool // the device's voucher was replaced by a completed TO2: its other TO2 sessions can no longer proceed
 	cleanup func()
 }
 
-var effectKinds = []string{"AddVoucher", "SetRVBlob", "ReplaceVoucher", "Module", "NextModule", "HandleInfo", "ProduceInfo"}
+// (ModuleStateMachine.Module is a pure lookup and not counted as invoking a module)
+var effectKinds = []string{"AddVoucher", "SetRVBlob", "ReplaceVoucher", "NextModule", "HandleInfo", "ProduceInfo"}
 
 func newWorld(ctx context.Context, d seqDesc) (*world, error) {
 	w := &world{cfg: deploy.Config{Key: "P-256", Enc: "x509", Kex: "ECDH256", Cipher: "A128GCM"}, byToken: map[string]*session{}, cleanup: func() {}}
@@ -296,6 +298,11 @@ func evalSeq(d seqDesc) ev.Result {
 				}
 			}
 		}
+		for _, e := range effects {
+			if e == "ReplaceVoucher" && tokOwner != nil {
+				w.gone[tokOwner.dev] = true // however it came about, the device's old voucher is gone now
+			}
+		}
 		allowed := map[string]bool{}
 		if legit {
 			switch typ {
@@ -304,7 +311,7 @@ func evalSeq(d seqDesc) ev.Result {
 			case 22:
 				allowed["SetRVBlob"] = true
 			case 68:
-				allowed["Module"], allowed["NextModule"], allowed["HandleInfo"], allowed["ProduceInfo"] = true, true, true, true
+				allowed["NextModule"], allowed["HandleInfo"], allowed["ProduceInfo"] = true, true, true
 			case 70:
 				allowed["ReplaceVoucher"] = true
 			}
@@ -362,7 +369,7 @@ func evalSeq(d seqDesc) ev.Result {
 				w.reg[s.dev] = true
 			}
 			if typ == 70 && !w.svc.Reuse {
-				// the voucher was replaced: the device's old GUID is gone from the owner
+				w.gone[s.dev] = true // the voucher was replaced: the device's old GUID is gone from the owner
 			}
 		case 62:
 		case 64:
@@ -466,11 +473,15 @@ func evalSeq(d seqDesc) ev.Result {
 			if !ok {
 				continue
 			}
-			r, bad := post(typ, s.token, body, s, len(exp) > 0, fmt.Sprintf("step %d next(slot %d)", i, slot))
+			legit := len(exp) > 0
+			if s.proto == pTO2 && w.gone[s.dev] {
+				legit = false // doomed: another session of this device already replaced the voucher
+			}
+			r, bad := post(typ, s.token, body, s, legit, fmt.Sprintf("step %d next(slot %d)", i, slot))
 			if bad != nil {
 				return *bad
 			}
-			if len(exp) > 0 && r.Status == 200 {
+			if legit && r.Status == 200 && r.Type == typ+1 {
 				advance(s, typ, body, r)
 				progressed++
 			}
